@@ -103,3 +103,69 @@ M('C11-n-rename-local', 'C11', F_FILE,
   "        with open(filename, **file_args) as dest:\n"
   "            dest.write(outfh.read())\n",
   kind='neutral')
+
+# ---------------------------------------------------------------- C12 ----
+M('C12-drop-containment', 'C12', F_P8,
+  "        if not inc_full_path.startswith(\n"
+  "                root_path.rstrip(os.path.sep) + os.path.sep):\n"
+  "            raise P8IncludeOutsideOfAllowedDirectory()\n",
+  "", expect='R-C12-taint')
+M('C12-revert-fix16-include', 'C12', F_P8,
+  "        if not inc_full_path.startswith(\n"
+  "                root_path.rstrip(os.path.sep) + os.path.sep):\n",
+  "        if not inc_full_path.startswith(root_path):\n",
+  expect='R-C12-component')
+M('C12-revert-fix16-root', 'C12', F_P8,
+  "        if full_file_path.startswith(full_candidate_path + os.path.sep):\n",
+  "        if full_file_path.startswith(full_candidate_path):\n",
+  expect='R-C12-component')
+M('C12-open-raw-path', 'C12', F_P8,
+  "            with open(inc_full_path, 'rb') as fh:\n                for line in fh:\n",
+  "            with open(os.path.join(os.path.dirname(filename), inc_path + inc_extension), 'rb') as fh:\n                for line in fh:\n",
+  expect='R-C12-taint')
+M('C12-test-before-normalise', 'C12', F_P8,
+  "        inc_full_path = os.path.abspath(\n"
+  "            os.path.normpath(\n"
+  "                os.path.join(\n"
+  "                    os.path.dirname(filename), inc_path + inc_extension)))\n",
+  "        inc_full_path = os.path.join(\n"
+  "                    os.path.dirname(filename), inc_path + inc_extension)\n",
+  expect='R-C12-norm')
+M('C12-probe-raw', 'C12', F_P8,
+  "        inc_tab = None\n        if inc_tab_b:\n",
+  "        inc_tab = None\n"
+  "        if not os.path.exists(os.path.join(os.path.dirname(filename), inc_path + inc_extension)):\n"
+  "            raise P8IncludeNotFound()\n"
+  "        if inc_tab_b:\n",
+  expect='R-C12-taint')
+M('C12-raise-to-warning', 'C12', F_P8,
+  "            raise P8IncludeOutsideOfAllowedDirectory()\n",
+  "            util.error('include outside of allowed directory\\n')\n",
+  expect='R-C12-taint')
+M('C12-require-filter-after-locate', 'C12', F_BUILD,
+  "        # Disallow chars that select files outside of the load path.\n"
+  "        if b'./' in require_path or require_path.startswith(b'/'):\n"
+  "            raise LuaBuildError(\n"
+  "                'require() filename cannot contain \"./\" or \"../\" or start '\n"
+  "                'with \"/\"', require_token)\n"
+  "\n"
+  "        if require_path not in package_lua:\n",
+  "        if require_path not in package_lua:\n",
+  expect='R-C12-taint')
+M('C12-require-filter-no-abs', 'C12', F_BUILD,
+  "        if b'./' in require_path or require_path.startswith(b'/'):\n",
+  "        if b'./' in require_path:\n",
+  expect='R-C12-taint')
+M('C12-locate-join-cwd', 'C12', F_BUILD,
+  "            candidate = os.path.join(rel_path_base, candidate)\n",
+  "            candidate = os.path.join(os.getcwd(), candidate)\n",
+  expect='R-C12-locate')
+M('C12-n-commonpath', 'C12', F_P8,
+  "        if not inc_full_path.startswith(\n"
+  "                root_path.rstrip(os.path.sep) + os.path.sep):\n",
+  "        if os.path.commonpath([root_path, inc_full_path]) != root_path:\n",
+  kind='neutral')
+M('C12-n-isabs', 'C12', F_BUILD,
+  "        if b'./' in require_path or require_path.startswith(b'/'):\n",
+  "        if b'./' in require_path or os.path.isabs(require_path_str):\n",
+  kind='neutral')
